@@ -665,6 +665,11 @@ func (f *frame) applySpec(sp *spec.FuncSpec, callee *ssa.Function, sig *types.Si
 		}
 		env := &Env{vc: vc, names: post, st: st, old: old, pkg: pkg}
 		for _, c := range part.sp.Ensures {
+			if strings.HasPrefix(c.Label, "lemma-") {
+				// a stepping stone inside the callee's own proof (proved there, assumed for its later
+				// clauses): not part of what callers see, so that it costs them nothing
+				continue
+			}
 			t, err := env.evalBool(c.E)
 			if err != nil {
 				return nil, fmt.Errorf("%s:%d: %v", c.File, c.Line, err)
